@@ -34,6 +34,9 @@ def _init():
     import atexit
     _APP = SchedApp()
     atexit.register(_APP.close)
+    # pool workers leave through os._exit: only multiprocessing's own finalizers run there
+    from multiprocessing import util as _mpu
+    _mpu.Finalize(None, _APP.close, exitpriority=10)
     _INJ = faults.Injector(_APP)
     _MODEL = Model()
 
